@@ -199,9 +199,11 @@ class Session:
             body_plain = b""
             resp_truth = []
             if self.pending_task is not None:
-                cmd, tdata = self.pending_task
+                cmd, tdata = self.pending_task[:2]
+                # (the small task C1 is always the very same packet - same second, same arguments - so that two of
+                # them in one session are byte-identical on the wire; the other tasks carry increasing timestamps)
+                epoch = self.pending_task[2] if len(self.pending_task) > 2 else 0x60000000 + self.task_no
                 self.pending_task = None
-                epoch = 0x60000000 + self.task_no
                 self.task_no += 1
                 tp = struct.pack(">IIII", epoch, len(tdata) + 8, cmd, len(tdata)) + tdata
                 ct, sig = RA.encrypt_packet(tp, self.keys[0], self.keys[1])
@@ -292,12 +294,18 @@ class Session:
         if ev in ("C0", "C1", "C2", "C6"):
             # C6: command id 6 (COMMAND_NOOP alias COMMAND_KEYLOG_START) - the client's get_task() skips it, the
             # traffic decoder must still report the packet that was sent
-            self.pending_task = {"C0": None, "C1": (32, b""), "C2": (53, bytes(lcg(1000, self.seed + 3))), "C6": (6, b"six!")}[ev]
-            expected = None if ev == "C6" else self.pending_task
+            self.pending_task = {"C0": None, "C1": (32, b"", 0x5FFFFFF0), "C2": (53, bytes(lcg(1000, self.seed + 3))), "C6": (6, b"six!")}[ev]
+            expected = None if ev in ("C0", "C6") else self.pending_task[:2]
             t = self.client.get_task()
             got = None if t is None else (t.command.value, bytes(t.data))
             if got != expected:
                 self.interop_errors.append(f"get_task() returned {got!r:.80}, the server sent {expected!r:.80}")
+            # what went over the wire is the beacon's self-description as it is now
+            last = next((w for w in reversed(self.wire) if w[2] == "client-request" and w[1] and w[1][0][0] == "metadata"), None)
+            if last is not None and not self.interop_errors:
+                sent, now = last[1][0][1], self.client.metadata
+                if (sent["bid"], sent["pid"], sent["info"]) != (now.bid, now.pid, bytes(now.info)):
+                    self.interop_errors.append(f"stale metadata: the check-in carried info {sent['info']!r:.60}, the client's metadata says {bytes(now.info)!r:.60}")
         elif ev == "P1e":
             from dissect.cobaltstrike.client import BeaconCallback
 
@@ -446,7 +454,7 @@ def run_history(cfg_kw, hist, seed, uri_choice=0, beacon_id=0x1234, prerun_id=No
     s.stop()
     # ground truth for the library client's own callbacks is what the reference server decoded; cross-check count
     if s.interop_errors:
-        return ("C07/interop/" + ("get_task" if s.interop_errors[0].startswith("get_task") else "server-cannot-decode"), "client and reference server interoperate", s.interop_errors[0][:300]), s
+        return ("C07/interop/" + ("get_task" if s.interop_errors[0].startswith("get_task") else "stale-metadata" if s.interop_errors[0].startswith("stale metadata") else "server-cannot-decode"), "client and reference server interoperate", s.interop_errors[0][:300]), s
     for v in VARIANTS:
         bad = decode_log(s, v)
         if bad:
